@@ -194,6 +194,8 @@ def run(shard, rec):
             for _ in range(shard['cases']):
                 fn = rng.choice(INT_FUNCS if tp == 'int' else FXP_FUNCS)
                 n = rng.randint(1, 12)
+                if fn in ('quantiles_e', 'quantiles_i') and rng.random() < 0.5:
+                    n = rng.randint(13, 26)            # exactly two order statistics with indices of 8 and above occur only from here on
                 if fn in ('variance', 'stdev', 'covariance', 'correlation', 'linear_regression', 'quantiles_e', 'quantiles_i'):
                     n = max(n, 2)
                 X = gen_data(rng, tp, n)
@@ -261,6 +263,14 @@ def run(shard, rec):
                 xa[:] = [mk(77)] * len(xa)
                 ya[:] = [mk(-55 + i) for i in range(len(ya))]
                 res.append(await mpc.output(r))
+            # several order-statistic computations pending at once, on data from different senders, awaited in another order
+            sel = [f_ for f_ in ('median', 'median_low', 'median_high', 'quantiles_e') if tp == 'int' or f_ != 'median'][:3]
+            zs = mpc.input([mk(v if pid == len(mpc.parties) - 1 else 0) for v in Y], senders=len(mpc.parties) - 1)
+            pend = [call(mpc, sel[0], list(xs), None, nq), call(mpc, sel[1], list(zs), None, nq), call(mpc, sel[2], list(xs), None, nq), call(mpc, sel[0], list(zs), None, nq)]
+            outs_ = [None] * 4
+            for j_ in (2, 0, 3, 1):
+                outs_[j_] = await mpc.output(pend[j_])
+            res.append(('concurrent', sel, outs_))
             for fn in fns:
                 # one list object evaluated, changed in place, evaluated again: the second result is that of the changed data
                 xl, yl = list(xs), list(ys)
@@ -275,6 +285,12 @@ def run(shard, rec):
         if res is None:
             rec.violation(f'{what} {fns}: run did not complete {w.status} {[r for r in w.results() if r[0] == "EXC"][:1]} {w.error_summaries()[:1]}', {'mechanism': 'no-completion', 'type': tp}, {'case': case}, case=case)
             continue
+        conc = [r_ for r_ in res[0] if isinstance(r_, tuple) and r_ and r_[0] == 'concurrent']
+        res = [[r_ for r_ in pr if not (isinstance(r_, tuple) and r_ and r_[0] == 'concurrent')] for pr in res]
+        for _, sel, outs_ in conc:
+            for fn_, data_, got in zip([sel[0], sel[1], sel[2], sel[0]], [X, Y, X, Y], outs_):
+                rec.count('concurrent_selections_checked')
+                judge(rec, what + ' (four order-statistic computations pending together)', case, tp, fn_, [Fr(v) for v in data_], None, nq, got)
         for fn, got in zip(fns, res[0]):
             FX = [Fr(v) for v in X]
             FY = [Fr(v) for v in Y]
